@@ -1,6 +1,7 @@
 #ifndef TULZ_THREAD_H
 #define TULZ_THREAD_H
 
+#include <atomic>
 #include <thread>
 
 #include "Runnable.h"
@@ -44,7 +45,8 @@ public:
 
 private:
     std::thread m_thread;
-    bool m_isFinished = false;
+    // written by the thread itself when its callable has returned, read by other threads (isFinished / isRunning)
+    std::atomic<bool> m_isFinished {false};
 };
 }
 
